@@ -313,8 +313,8 @@ TABLE_PROPS = {
 # models that carry each property (spec, cfg, timeout)
 _HAND_Q = [("HandMC.tla", c, 600) for c in ("Hand_2p.cfg", "Hand_2p_ante.cfg", "Hand_3p.cfg", "Hand_3p_deadsb.cfg", "Hand_3p_deadbtn.cfg")]
 _HAND_T = _HAND_Q + [("HandMC.tla", c, 1800) for c in ("Hand_3p_dealerblind.cfg", "Hand_3p_nosb.cfg", "Hand_4p.cfg")]
-_LIFE_Q = [("TableLife.tla", "TL_fixed_q.cfg", 900), ("TableLife.tla", "TL_live.cfg", 600)]
-_LIFE_T = [("TableLife.tla", "TL_fixed.cfg", 3000), ("TableLife.tla", "TL_live.cfg", 600)]
+_LIFE_Q = [("TableLife.tla", "TL_fixed_q.cfg", 900), ("TableLife.tla", "TL_leave.cfg", 900), ("TableLife.tla", "TL_live.cfg", 600)]
+_LIFE_T = [("TableLife.tla", "TL_fixed.cfg", 3000), ("TableLife.tla", "TL_leave.cfg", 900), ("TableLife.tla", "TL_live.cfg", 600)]
 _SM_Q = [("SeatManagerMC.tla", "SM_mc3.cfg", 600), ("SeatManagerMC.tla", "SM_mc4.cfg", 900)]
 _SM_T = _SM_Q + [("SeatManagerMC.tla", "SM_mc4sd.cfg", 600), ("SeatManagerMC.tla", "SM_mc5.cfg", 3000)]
 _WRAP = [("HandWrapper.tla", c, 600) for c in ("HW_2p.cfg", "HW_2p_fault.cfg", "HW_3p_silent.cfg", "HW_3p_deadbtn.cfg", "HW_3p_fault2.cfg")]
